@@ -65,7 +65,9 @@ def quad(r, n, dyadic=False):
     else:
         kappa = 10 ** r.uniform(0, 3)
         lam = [1.0] + [kappa ** r.random() for _ in range(n - 2)] + ([kappa] if n > 1 else [])
-        sc = 10 ** r.uniform(-1, 1)
+        # the scale of the objective: the quantifier bounds the condition number only.  Half the quadratics have
+        # eigenvalues of order 1 (0.1 .. 10 times [1, kappa]), the other half anywhere in 1e-8 .. 1e8
+        sc = 10 ** r.uniform(-1, 1) if r.random() < 0.5 else 10 ** r.uniform(-8, 8)
         lam = [l * sc for l in lam]
         U = rand_orth(r, n)
         q = [[sum(U[k][i] * lam[k] * U[k][j] for k in range(n)) for j in range(n)] for i in range(n)]
@@ -411,7 +413,9 @@ def coverage_extra(cases, answers, model=None):
         kind = h[2] if len(h) > 3 else "?"
         dim = next((l.split()[2] for l in c if l.startswith("obj ")), "?")
         for (_, v) in m:
-            if v.startswith("ok:conv:"):
+            if v == "ok:conv:not_judged":
+                conv["not_judged"] = conv.get("not_judged", 0) + 1     # an `optimize` outside the guards of the clause
+            elif v.startswith("ok:conv:"):
                 w = v[len("ok:conv:"):]
                 conv["judged"] += 1
                 conv[w] = conv.get(w, 0) + 1
